@@ -286,6 +286,14 @@ class Harness:
             if getattr(rs, "shared_error", None) is None:
                 rs.shared_error = UserError("shared failure", {"code": "SHARED"})
             raise rs.shared_error
+        if f.kind == "shared_plain":
+            # one ordinary (non-library) exception object failing several positions of one request - raised by resolvers,
+            # or handed back as a value / list item (asyncio.gather(..., return_exceptions=True) passed on)
+            if getattr(rs.tree, "shared_plain_error", None) is None:
+                rs.tree.shared_plain_error = ValueError("shared plain failure")
+            if as_item:
+                return rs.tree.shared_plain_error
+            raise rs.tree.shared_plain_error
         if f.kind == "raise_tagged_in_place":
             # user code annotating a library error it created without extensions, through the public attribute
             err = TartifletteError("Forbidden-%d" % n)
